@@ -18,6 +18,7 @@ import (
 	"crypto/sha1"
 	"encoding/base64"
 	"encoding/hex"
+	"encoding/json"
 	"fmt"
 	"os"
 	"os/exec"
@@ -887,6 +888,48 @@ func genC06(tier string, rng *Rng) {
 			add("encout", [][]byte{mustWire(mo)})
 			add("decin", [][]byte{[]byte("HWCt#12=|||" + tx + "|1|" + tx)})
 			add("decout", [][]byte{[]byte("_name=" + tx), []byte("Msg=" + tx)})
+		}
+	}
+	// states as JSON lines (the inbound decoder accepts `{...}` = encoding/json of an HWCState): every
+	// formatting value with the styling / font / scale sub-objects absent, empty and filled - omitempty leaves
+	// a sub-object out exactly when it holds defaults (seed C06-15: the clean-up rules of the HWCt# path
+	// applied to JSON states read TextStyling without the nil guard that path never needed)
+	for fm := -1; fm <= 14; fm++ {
+		for v := 0; v < 6; v++ {
+			st := &rwp.HWCState{HWCIDs: []uint32{5}, HWCText: &rwp.HWCText{Formatting: rwp.HWCText_FormattingE(fm), Title: "Hello", Textline1: "a", IntegerValue: 7}}
+			switch v {
+			case 1:
+				st.HWCText.TextStyling = &rwp.HWCText_TextStyle{}
+			case 2:
+				st.HWCText.TextStyling = &rwp.HWCText_TextStyle{TextFont: &rwp.HWCText_TextStyle_Font{FontFace: 1}}
+			case 3:
+				st.HWCText.TextStyling = &rwp.HWCText_TextStyle{TitleFont: &rwp.HWCText_TextStyle_Font{TextHeight: 2}, UnformattedFontSize: 3}
+			case 4:
+				st.HWCText.Scale = &rwp.HWCText_ScaleM{}
+			case 5:
+				st.HWCText = &rwp.HWCText{Formatting: rwp.HWCText_FormattingE(fm)}
+			}
+			if js, err := json.Marshal(st); err == nil {
+				add("decin", [][]byte{js})
+				add("reader", [][]byte{js})
+			}
+		}
+	}
+	// ... and whatever the presence sweeps of the encoder side produce, as JSON lines
+	for n := 0; n < 300; n++ {
+		mi := &rwp.InboundMessage{}
+		randMsg(rng, mi.ProtoReflect(), 3, 60)
+		var ls [][]byte
+		for _, st := range mi.States {
+			if js, err := json.Marshal(st); err == nil && len(js) < 4000 {
+				ls = append(ls, js)
+			}
+		}
+		if len(ls) > 0 {
+			add("decin", ls)
+			if n%4 == 0 {
+				add("reader", ls)
+			}
 		}
 	}
 	// very long lines
